@@ -456,9 +456,16 @@ ExportEv(e) ==
   ELSE [Cur EXCEPT !.fails = fails
           \cup (IF FactsOk(e, g) THEN {} ELSE {F(e, p, e.op \o ": the printed vertices, edges or data are not exactly those of the graph")})
           \cup (IF e.stable THEN {} ELSE {F(e, p, e.op \o ": two graphs with the same vertices, edges and data print differently")})]
+\* Known finding D9 (KNOWN_FINDINGS.txt): v_print prints the data marker as the prefix "Δ, " and the labels in enumeration
+\* order; a vertex WITHOUT data whose first label is the character Δ and that has further labels prints exactly what a
+\* vertex WITH data and those further labels prints.  Nothing else is excused.
+KnownVPrintDelta(e, g) ==
+  /\ e.wellformed /\ g.st[e.v] = "empty" /\ Len(g.edges[e.v]) >= 2 /\ g.edges[e.v][1][1] = "Δ"
+  /\ e.marker /\ e.labels = [i \in 1..(Len(g.edges[e.v]) - 1) |-> g.edges[e.v][i + 1][1]]
 VPrintEv(e) ==
   LET g == gs[e.h] IN
   IF void \/ div \/ IsNull(g) \/ e.v \notin g.present THEN Cur
+  ELSE IF KnownVPrintDelta(e, g) THEN [Cur EXCEPT !.fails = fails \cup {F(e, "C20", "KNOWN:D9-vprint-delta-label: v_print of a vertex without data whose first label is the character Δ reads as data marker plus the remaining labels")}]
   ELSE [Cur EXCEPT !.fails = fails
           \cup (IF e.wellformed /\ (e.marker <=> g.st[e.v] # "empty") THEN {} ELSE {F(e, "C20", "v_print: data marker wrong")})
           \cup (IF e.wellformed /\ ToSet(e.labels) = LabelsOf(g, e.v) /\ Len(e.labels) = Len(g.edges[e.v]) THEN {}
